@@ -9,6 +9,38 @@ def T(name, pkg, quick, thorough, **kw):
 
 
 PROPS = {
+    "C01": {
+        "level": "exploration",
+        "tests": [T("TestC01Converge", "fleet", 1200, 128000, shards=16, qshards=4)],
+        "assumptions": [
+            "tomb sweeper disabled (as the property states)",
+            "native mode: an application overwrite is stamped strictly later than the version it overwrites (shared monotone clock); equal timestamps arise between instances that have not seen each other's versions",
+            "shadow mode: detection stamps come from one shared logical clock through the guarded capture wrapper and are strictly later than every version the capturing instance already stores",
+            "live empty values in shadow mode are excluded (known finding shadow-empty-value) and counted",
+            "the oracle is the set model: a stored version must be one of the highest-timestamp versions seen; the tie-break itself is only required to be the same everywhere (identical content after quiescence)",
+        ],
+    },
+    "C04": {
+        "level": "exploration",
+        "tests": [
+            T("TestC04Deletes", "fleet", 800, 96000, shards=16, qshards=4),
+            T("TestC04Config", "fleet", 50000, 8000000, shards=8),
+            T("TestC04SweepThenLoad", "fleet", 1500, 160000, shards=16),
+        ],
+        "assumptions": [
+            "sweeper clause for snapshots in the current format (version-1 snapshots carry no deleted flag)",
+            "a marker is only required to be accepted from a peer when it is one second old; markers between the load cutoff and the retention may be refused for absent keys by design",
+            "end-to-end cases use the real clock with margins of >= 1 s around the cutoffs",
+        ],
+    },
+    "C10": {
+        "level": "exploration",
+        "tests": [T("TestC10Remerge", "fleet", 800, 96000, shards=16, qshards=4)],
+        "assumptions": [
+            "part A (direct driver) only so far: re-merging merged content; the real-loop store counting (part B) is added with the scheduler",
+            "DBIs without the dupsort hack",
+        ],
+    },
     "C02": {
         "level": "exploration",
         "tests": [
